@@ -617,3 +617,20 @@ def structural_mutant(rnd, cfg):
     else:
         parent[key] = rnd.choice([{}, [], '', [{}], {'': {}}])
     return c, f'{op}@{"/".join(str(p) for p in path)}'
+
+
+def op_null_table_still_used(table, user_prop, user_value):
+    """an optional table of the trace type is reset to null (valid: null means the default, i.e. no entry) while an
+    object still refers to one of its entries by name: a reference to an unknown name"""
+    def f(cfg, path, rnd):
+        cfg['trace']['type'][table] = None
+        get(cfg, path)[user_prop] = user_value
+    return f
+
+
+OPS += [
+    ('log-level-alias-used-with-null-alias-table', ['ert'], None,
+     op_null_table_still_used('$log-level-aliases', 'log-level', 'warning')),
+    ('clock-type-used-with-null-clock-types', ['dst'], None,
+     op_null_table_still_used('clock-types', '$default-clock-type-name', 'clk0')),
+]
